@@ -1,5 +1,6 @@
 import Vanguard.Model.Run
 import Vanguard.Spec.Progress
+import Vanguard.Props.C11
 /-!
   # C16 — streaming RPCs make progress message by message
 
@@ -22,6 +23,13 @@ import Vanguard.Spec.Progress
     loop): whatever the backend writes - any number of messages, split anywhere, malformed or
     over the limit, errors included - when `transformingWriter.Write` returns, everything written to
     a streaming client so far has been flushed (`AllFlushed` is an invariant of the writer).
+
+  * **whole `Write` calls on the re-framing path** (`ewLoop_flushed_at_boundaries`, `ewWrite_flushed_at_boundaries`):
+    the re-framing writer streams a message through while the backend is still writing it, so bytes of
+    an unfinished message may be unflushed; but whenever the writer is *between messages* (waiting for
+    the next envelope) everything written to a streaming client so far has been flushed - for any
+    backend output, split anywhere, errors included.  So a complete response message is on the wire
+    when the `Write` call that completed it returns.
 
   NOT proved (partial): the same for whole runs - "after every backend write all completed
   messages are flushed" and "delivering message k consumes at most k client messages" as
@@ -348,6 +356,142 @@ theorem twWrite_keeps (w : World) (tb : Tables) (st : St) (t : TW) (data : Bytes
       · exact h
     · exact twLoop_keeps w tb _ st _ data h
 
+
+/-! ### the re-framing writer: flushed whenever it is between messages -/
+
+/-- Between messages (the writer collects the next envelope) everything written to a streaming client is flushed. -/
+def FlushedAtBoundary (st : St) (e : EW) : Prop :=
+  st.rw.buf = none → e.writingEnvelope = true → st.sink.flushedN.getD 0 = st.sink.items.length
+
+theorem ewWritePiece_env_state (w : World) (st : St) (e : EW) (piece : Bytes) (hw : e.writingEnvelope = true) :
+    (ewWritePiece w st e piece).1 = st := by
+  unfold ewWritePiece; simp [hw]
+
+theorem boundary_vacuous (st : St) (e : EW) (h : e.writingEnvelope = false) : FlushedAtBoundary st e := by
+  intro _ hw; rw [h] at hw; cases hw
+
+/-- **Any number of `Write` bytes on the re-framing path.** -/
+theorem ewLoop_flushed_at_boundaries (w : World) (tb : Tables) : ∀ (n : Nat) (st : St) (e : EW) (data : Bytes),
+    FlushedAtBoundary st e → FlushedAtBoundary (ewLoop w tb n st e data).1 (ewLoop w tb n st e data).2.1 := by
+  intro n
+  induction n with
+  | zero => intro st e data h; simpa [ewLoop] using h
+  | succ m ih =>
+    intro st e data hinv
+    unfold ewLoop
+    by_cases herr : e.err = true
+    · simp only [herr, if_true]; exact hinv
+    · simp only [herr, Bool.false_eq_true, if_false]
+      by_cases hlt : (data.length : Int) < e.remaining
+      · simp only [hlt, if_true]
+        by_cases hw : e.writingEnvelope = true
+        · -- part of an envelope: nothing reaches the client
+          have hs := ewWritePiece_env_state w st e data hw
+          have hf := (C11.ewWritePiece_flags w st e data).1
+          generalize ewWritePiece w st e data = r1 at hs hf ⊢
+          obtain ⟨s1, e1, f1, p1⟩ := r1
+          simp only at hs hf ⊢
+          subst hs
+          intro hb _
+          exact hinv hb hw
+        · have hwf : e.writingEnvelope = false := by simpa using hw
+          have hf := (C11.ewWritePiece_flags w st e data).1
+          generalize ewWritePiece w st e data = r1 at hf ⊢
+          obtain ⟨s1, e1, f1, p1⟩ := r1
+          simp only at hf ⊢
+          exact boundary_vacuous _ _ (by simp only; rw [hf]; exact hwf)
+      · simp only [hlt, if_false]
+        have hf := (C11.ewWritePiece_flags w st e (data.take e.remaining.toNat)).1
+        have hs := ewWritePiece_env_state w st e (data.take e.remaining.toNat)
+        generalize ewWritePiece w st e (data.take e.remaining.toNat) = r1 at hf hs ⊢
+        obtain ⟨s1, e1, f1, p1⟩ := r1
+        simp only at hf hs ⊢
+        by_cases hbad : (f1 || p1) = true
+        · simp only [hbad, if_true]
+          by_cases hw : e.writingEnvelope = true
+          · have := hs hw; subst this
+            intro hb _; exact hinv hb hw
+          · exact boundary_vacuous _ _ (by simp only; rw [hf]; simpa using hw)
+        · simp only [hbad, Bool.false_eq_true, if_false]
+          by_cases hw : e1.writingEnvelope = true
+          · simp only [hw, if_true]
+            have hnw := fun ee => C11.ewEnvelopeWritten_not_writing w s1 ee
+            generalize hr2 : ewEnvelopeWritten w s1 _ = r2
+            have hnw' : r2.2.1.writingEnvelope = false := by rw [← hr2]; exact hnw _
+            obtain ⟨s2, e2, f2, p2⟩ := r2
+            simp only at hnw' ⊢
+            split
+            · exact boundary_vacuous _ _ hnw'
+            · exact ih _ _ _ (boundary_vacuous _ _ hnw')
+          · have hwf : e1.writingEnvelope = false := by simpa using hw
+            simp only [hwf, Bool.false_eq_true, if_false]
+            by_cases ht : e1.currentIsTrailer = true
+            · simp only [ht, if_true]
+              split
+              · generalize handleEndMessage w tb s1 _ _ true = r3
+                obtain ⟨s2, err, p2⟩ := r3
+                simp only
+                split
+                · exact boundary_vacuous _ _ rfl
+                · split
+                  · exact boundary_vacuous _ _ rfl
+                  · exact ih _ _ _ (boundary_vacuous _ _ rfl)
+              · exact boundary_vacuous _ _ rfl
+            · -- a message has been completed: flush, then wait for the next envelope
+              simp only [ht, Bool.false_eq_true, if_false]
+              apply ih
+              intro hb _
+              simp only [flushMessage] at hb ⊢
+              by_cases hbuf : s1.rw.buf.isSome = true
+              · simp only [hbuf, if_true] at hb
+                rw [hb] at hbuf; cases hbuf
+              · simp [hbuf, Sink.flush]
+
+/-- **Whole `Write` calls of the re-framing writer** (a writer that was never used starts on a response
+    of which nothing is unflushed): between messages everything is flushed. -/
+theorem ewWrite_flushed_at_boundaries (w : World) (tb : Tables) (st : St) (e : EW) (data : Bytes)
+    (hJ : FlushedAtBoundary st e) (h0 : e.initialized = false → AllFlushed st ∧ e.writingEnvelope = false) :
+    FlushedAtBoundary (ewWrite w tb st e data).1 (ewWrite w tb st e data).2.1 := by
+  have hinit : FlushedAtBoundary (ewInit w st e).1 (ewInit w st e).2.1 := by
+    unfold ewInit
+    split
+    · exact hJ
+    · rename_i hi
+      have hi' : e.initialized = false := by simpa using hi
+      obtain ⟨haf, hwf⟩ := h0 hi'
+      simp only
+      split
+      · intro hb _; exact haf hb
+      · split
+        · exact boundary_vacuous _ _ hwf
+        · split
+          · exact boundary_vacuous _ _ hwf
+          · split
+            · exact boundary_vacuous _ _ hwf
+            · split <;> exact boundary_vacuous _ _ hwf
+  unfold ewWrite
+  generalize ewInit w st e = r0 at hinit ⊢
+  obtain ⟨s0, e0, p0⟩ := r0
+  simp only at hinit ⊢
+  split
+  · exact hinit
+  · split
+    · exact hinit
+    · split
+      · by_cases hw : e0.writingEnvelope = true
+        · have hs := ewWritePiece_env_state w s0 e0 data hw
+          have hf := (C11.ewWritePiece_flags w s0 e0 data).1
+          generalize ewWritePiece w s0 e0 data = r1 at hs hf ⊢
+          obtain ⟨s1, e1, f1, p1⟩ := r1
+          simp only at hs hf ⊢
+          subst hs
+          intro hb _; exact hinit hb hw
+        · have hf := (C11.ewWritePiece_flags w s0 e0 data).1
+          generalize ewWritePiece w s0 e0 data = r1 at hf ⊢
+          obtain ⟨s1, e1, f1, p1⟩ := r1
+          simp only at hf ⊢
+          exact boundary_vacuous _ _ (by simp only; rw [hf]; simpa using hw)
+      · exact ewLoop_flushed_at_boundaries w tb _ s0 e0 data hinit
 
 /-- The claim is not vacuous: it holds when the backend starts writing (nothing written, nothing
     flushed), and it fails for a state with an unflushed item. -/
